@@ -33,7 +33,7 @@ def encode(obj):
   if isinstance(obj, str):
     validate_encoded(obj)
     return obj
-  elif isinstance(obj, int):
+  elif isinstance(obj, int) and not isinstance(obj, bool):
     return str(obj)
   else:
     raise gfapy.TypeError(
